@@ -15,8 +15,8 @@ EXTENDS OnosV3Props, Json, IOUtils, SequencesExt
 TraceFile == IF "TRACE" \in DOMAIN IOEnv THEN IOEnv.TRACE ELSE "trace.ndjson"
 Trace == TLCEval(ndJsonDeserialize(TraceFile))
 
-VARIABLES l, w, hist, stable, drift
-tvars == <<l, w, hist, stable, drift>>
+VARIABLES l, w, hist, stable, drift, snap
+tvars == <<l, w, hist, stable, drift, snap>>
 
 TxOf(r) == [phase |-> r.phase, values |-> r.values, cc |-> r.cc, ca |-> r.ca, cord |-> r.cord,
             rc |-> r.rc, ra |-> r.ra, rord |-> r.rord, rindex |-> r.rindex, rvalues |-> r.rvalues]
@@ -36,6 +36,7 @@ TraceInit == /\ l = 0
              /\ hist = << >>
              /\ stable = FALSE
              /\ drift = FALSE
+             /\ snap = EmptyFn
 
 \* the recorded step as a step record of the specification
 StepOf(a) ==
@@ -58,6 +59,7 @@ TraceNext ==
        IN  /\ l' = l + 1
            /\ w' = W2
            /\ hist' = IF fresh THEN << >> ELSE hist \o Events(w.txs, W2.txs)
+           /\ snap' = IF fresh THEN EmptyFn ELSE NextSnap(snap, w.cfg, W2.cfg)
            \* drain: every object served until a pass has no effect; wdrain (live mode): the REAL work sets, fed by the
            \* real watchers and requeues only, served until they stay empty
            /\ stable' = (L.act.k \in {"drain", "wdrain"} /\ L.act.stable)
@@ -71,7 +73,7 @@ TraceAccepted == TLCGet("stats").diameter - 1 = Len(Trace)
 Overrun == l > 0 /\ Trace[l].act.k \in {"drain", "wdrain"} /\ ~Trace[l].act.stable
 
 Report ==
-    LET bad == Violated(w, hist, stable) \cup (IF Overrun THEN {"C20_Terminates"} ELSE {}) IN
+    LET bad == Violated(w, hist, stable, snap) \cup (IF Overrun THEN {"C20_Terminates"} ELSE {}) IN
     /\ bad = {} \/ PrintT(<<"VIOLATION", l, bad>>)
     /\ ~drift \/ PrintT(<<"DRIFT", l>>)
 =============================================================================
